@@ -3,6 +3,7 @@ package logqlengine
 import (
 	"bytes"
 	"fmt"
+	"io"
 	"net/url"
 	"regexp"
 	"strconv"
@@ -28,6 +29,18 @@ func compileTemplate(
 		Option("missingkey=zero").
 		Funcs(tmplFunctions(currentTimestamp, currentLine)).
 		Parse(tmpl)
+}
+
+// executeTemplate executes the template. text/template recovers its own errors
+// only and re-panics runtime errors raised during execution (for example by
+// `{{ now | call }}`), so a panic is reported as an execution error too.
+func executeTemplate(t *template.Template, w io.Writer, data any) (rerr error) {
+	defer func() {
+		if r := recover(); r != nil {
+			rerr = errors.Errorf("template panic: %v", r)
+		}
+	}()
+	return t.Execute(w, data)
 }
 
 var sprigFuncs = sprig.TxtFuncMap()
